@@ -13,17 +13,21 @@
 #include <link.h>
 #include "mon_exec.c"
 
-static uint64_t pm_h; static size_t pm_nb; static int pm_nseg;
+static uint64_t pm_h; static size_t pm_nb, pm_tls; static int pm_nseg;
 static int pm_cb(struct dl_phdr_info *i, size_t sz, void *d) {
   int k; (void)sz; (void)d;
   if (!i->dlpi_name || !strstr(i->dlpi_name, "libxrl-verif")) return 0;
   for (k = 0; k < i->dlpi_phnum; k++) { const ElfW(Phdr) *p = &i->dlpi_phdr[k];
-    if (p->p_type == PT_LOAD && (p->p_flags & PF_W)) { pm_h = xv_fnv((const void *)(i->dlpi_addr + p->p_vaddr), p->p_memsz, pm_h); pm_nb += p->p_memsz; pm_nseg++; } }
+    if (p->p_type == PT_LOAD && (p->p_flags & PF_W)) { pm_h = xv_fnv((const void *)(i->dlpi_addr + p->p_vaddr), p->p_memsz, pm_h); pm_nb += p->p_memsz; pm_nseg++; }
+    /* thread-local storage of the library (this thread's block; before it is instantiated: its initialisation image, zero-extended) */
+    if (p->p_type == PT_TLS && p->p_memsz) { size_t j; pm_tls += p->p_memsz;
+      if (i->dlpi_tls_data) pm_h = xv_fnv(i->dlpi_tls_data, p->p_memsz, pm_h);
+      else { static const unsigned char z = 0; pm_h = xv_fnv((const void *)(i->dlpi_addr + p->p_vaddr), p->p_filesz, pm_h); for (j = p->p_filesz; j < p->p_memsz; j++) pm_h = xv_fnv(&z, 1, pm_h); } } }
   return 0;
 }
 #include <dirent.h>
 static int pm_nfd(void) { int n = 0; DIR *d = opendir("/proc/self/fd"); struct dirent *e; if (!d) return -1; while ((e = readdir(d))) if (e->d_name[0] != '.') n++; closedir(d); return n; }
-static uint64_t pm_hash(void) { pm_h = XV_FNV0; pm_nb = 0; pm_nseg = 0; dl_iterate_phdr(pm_cb, NULL); return pm_h; }
+static uint64_t pm_hash(void) { pm_h = XV_FNV0; pm_nb = 0; pm_nseg = 0; pm_tls = 0; dl_iterate_phdr(pm_cb, NULL); return pm_h; }
 
 /* request 2001: an episode on a caller-owned crystal array (explicitly allowed to be modified; the process and the
  * built-in tables are not).  i[0] selects the variant; the observable result goes into the response like any query. */
@@ -89,13 +93,24 @@ static void pm_object(const xv_req *r, xv_resp *o) {
   o->v[0] = d1; o->v[1] = f1.re; o->v[2] = g->volume;
   Crystal_Free(g); }
 
+/* process state a library call may not touch, beyond locale / cwd / streams / descriptors: environment, umask, signal dispositions,
+ * FP rounding mode, and the hidden cursors of libc (strtok position, rand sequence) that belong to the host program */
+#include <signal.h>
+#include <sys/stat.h>
+extern char **environ;
+static uint64_t pm_procstate(void) { uint64_t h = XV_FNV0; int k; char **e; mode_t m = umask(0); umask(m); h = xv_fnv(&m, sizeof m, h);
+  for (e = environ; e && *e; e++) h = xv_fnv(*e, strlen(*e) + 1, h);
+  for (k = 1; k < 32; k++) { struct sigaction sa; memset(&sa, 0, sizeof sa); if (!sigaction(k, NULL, &sa)) { h = xv_fnv(&sa.sa_handler, sizeof sa.sa_handler, h); h = xv_fnv(&sa.sa_flags, sizeof sa.sa_flags, h); } }
+  k = fegetround(); h = xv_fnv(&k, sizeof k, h);
+  return h; }
+
 #define KEEP 4000
 typedef struct { xrl_error *e; int code; char *msg; char *msgptr; } pm_kept;
 
 static const int pm_errnos[8] = { ENOMEM, 0, ERANGE, EDOM, EINVAL, ENOENT, EINTR, EAGAIN };
 
 int main(int argc, char **argv) {
-  int poison = 0, nfd0, nfd1; FILE *f; long n, k; char *sbuf = NULL; long slen = 0; xv_req *rq; xv_resp *rs; pm_kept *kept; int nkept = 0, changed = 0;
+  int poison = 0, nfd0, nfd1, tok_ok = 1, rnd_ok = 1, rnd_expect = 0; uint64_t ps0, ps1; char *tok_expect = NULL; FILE *f; long n, k; char *sbuf = NULL; long slen = 0; xv_req *rq; xv_resp *rs; pm_kept *kept; int nkept = 0, changed = 0;
   uint64_t h0, h1; char loc0[512], loc1[512], cwd0[1024], cwd1[1024], p1[600], p2[600]; int fd1, fd2; struct stat st1, st2; long added = 0;
   if (argc < 7 || strcmp(argv[1], "run")) { fprintf(stderr, "usage: puremon run req str resp msg report\n"); return 2; }
   setlocale(LC_ALL, "");
@@ -114,7 +129,9 @@ int main(int argc, char **argv) {
   fd1 = open(p1, O_RDWR | O_CREAT | O_TRUNC, 0644); fd2 = open(p2, O_RDWR | O_CREAT | O_TRUNC, 0644);
   fflush(stdout); fflush(stderr); dup2(fd1, 1); dup2(fd2, 2);
   snprintf(loc0, sizeof loc0, "%s", setlocale(LC_ALL, NULL)); if (!getcwd(cwd0, sizeof cwd0)) cwd0[0] = 0;
-  h0 = pm_hash(); nfd0 = pm_nfd();
+  h0 = pm_hash(); nfd0 = pm_nfd(); ps0 = pm_procstate();
+  { static char tokbuf[] = "a;b;c"; strtok(tokbuf, ";"); tok_expect = tokbuf + 2; }       /* the host is in the middle of a strtok() walk ... */
+  srand(12345); rnd_expect = rand(); srand(12345);                                            /* ... and of a rand() sequence */
   if (getenv("XV_XRAYINIT")) XRayInit();
   poison = getenv("XV_ERRNO") != NULL;
   for (k = 0; k < n; k++) {
@@ -134,7 +151,8 @@ int main(int argc, char **argv) {
       else xrl_error_free(e); }
   }
   for (k = 0; k < nkept; k++) { if ((int)kept[k].e->code != kept[k].code || kept[k].e->message != kept[k].msgptr || strcmp(kept[k].e->message, kept[k].msg)) changed++; }
-  h1 = pm_hash(); nfd1 = pm_nfd();
+  h1 = pm_hash(); nfd1 = pm_nfd(); ps1 = pm_procstate();
+  { char *t = strtok(NULL, ";"); tok_ok = (t == tok_expect); rnd_ok = (rand() == rnd_expect); }
   snprintf(loc1, sizeof loc1, "%s", setlocale(LC_ALL, NULL)); if (!getcwd(cwd1, sizeof cwd1)) cwd1[0] = 0;
   fflush(stdout); fflush(stderr); fstat(fd1, &st1); fstat(fd2, &st2);
   for (k = 0; k < nkept; k++) { xrl_error_free(kept[k].e); free(kept[k].msg); }
@@ -144,8 +162,8 @@ int main(int argc, char **argv) {
   fclose(f);
   f = fopen(argv[6], "w"); if (!f) return 2;
   fprintf(f, "{\"h0\":\"%016llx\",\"h1\":\"%016llx\",\"hashed_bytes\":%zu,\"segments\":%d,\"locale_before\":\"%s\",\"locale_after\":\"%s\",\"cwd_same\":%d,"
-             "\"stdout_bytes\":%ld,\"stderr_bytes\":%ld,\"errors_kept\":%d,\"errors_changed\":%d,\"builtin_added\":%ld,\"requests\":%ld,\"caller_objects_modified\":%ld,\"answers_changed_on_same_object\":%ld,\"errno_poisoned\":%d,\"open_descriptors_before\":%d,\"open_descriptors_after\":%d}\n",
-          (unsigned long long)h0, (unsigned long long)h1, pm_nb, pm_nseg, loc0, loc1, !strcmp(cwd0, cwd1), (long)st1.st_size, (long)st2.st_size, nkept, changed, added, n, pm_objmod, pm_objdep, poison, nfd0, nfd1);
+             "\"stdout_bytes\":%ld,\"stderr_bytes\":%ld,\"errors_kept\":%d,\"errors_changed\":%d,\"builtin_added\":%ld,\"requests\":%ld,\"caller_objects_modified\":%ld,\"answers_changed_on_same_object\":%ld,\"errno_poisoned\":%d,\"open_descriptors_before\":%d,\"open_descriptors_after\":%d,\"process_state_same\":%d,\"strtok_walk_intact\":%d,\"rand_sequence_intact\":%d,\"tls_bytes\":%zu}\n",
+          (unsigned long long)h0, (unsigned long long)h1, pm_nb, pm_nseg, loc0, loc1, !strcmp(cwd0, cwd1), (long)st1.st_size, (long)st2.st_size, nkept, changed, added, n, pm_objmod, pm_objdep, poison, nfd0, nfd1, ps0 == ps1, tok_ok, rnd_ok, pm_tls);
   fclose(f);
   unlink(p1); unlink(p2);
   { char t[700]; snprintf(t, sizeof t, "%s.good.dat", argv[6]); unlink(t); snprintf(t, sizeof t, "%s.bad.dat", argv[6]); unlink(t); snprintf(t, sizeof t, "%s.dup.dat", argv[6]); unlink(t);
